@@ -3,6 +3,7 @@ package c06
 import (
 	"encoding/json"
 	"fmt"
+	"strings"
 
 	"vharness/credgen"
 )
@@ -118,6 +119,56 @@ func (g *gen) generateNonDID(schs []*schemaInfo) []*Input {
 				in.Bound = true
 				ins = append(ins, in)
 			}
+		}
+	}
+	return ins
+}
+
+// Slot subsets: one non-merklized schema per non-empty subset of the four data
+// slots (quick: the singletons and the pairs; thorough: all 15).  Every field
+// the attribute names must be bound by the claim: changing or removing it has to
+// be rejected; the fields it does not name are outside the claim.
+func (g *gen) generateSlotSubsets() []*Input {
+	slots := []struct{ key, path string }{
+		{"slotIndexA", "count"}, {"slotIndexB", "info.grade"}, {"slotValueA", "active"}, {"slotValueB", "name"},
+	}
+	all := []string{"name", "count", "price", "active", "since", "ref", "spare", "info.grade", "info.note"}
+	var ins []*Input
+	for mask := 1; mask < 16; mask++ {
+		n := 0
+		var parts, paths, names []string
+		for i, s := range slots {
+			if mask&(1<<i) != 0 {
+				n++
+				parts = append(parts, s.key+"="+s.path)
+				paths = append(paths, s.path)
+				names = append(names, s.key[4:])
+			}
+		}
+		if n > 2 && !g.cfg.Thorough() {
+			continue
+		}
+		label := "ser-" + strings.Join(names, "+")
+		sch := &schemaInfo{Label: label, URL: fmt.Sprintf("https://schemas.example/c06/slots-%d.json-ld", mask), Type: ownType, Other: ownOther,
+			Merklized: false, SlotPaths: paths, AllPaths: all, Doc: ownContext("iden3:v1:" + strings.Join(parts, "&"))}
+		sp := g.credSpecs(sch)[mask%2]
+		o := credgen.Opts{RevNonce: uint64(mask), Version: uint32(mask % 3), Upd: mask%2 == 0}
+		ins = append(ins, g.base(sch, sp, o, "complete"))
+		for _, m := range docMods(buildDoc(sp), sch) {
+			named := false
+			for _, s := range slots {
+				if m.Field == s.path {
+					named = true
+				}
+			}
+			if !named {
+				continue
+			}
+			in := g.base(sch, sp, o, "doc")
+			mb, _ := json.Marshal(m.Doc)
+			in.ModCred, in.Site, in.Field = mb, m.Site, m.Field
+			in.Bound = boundSite(sch, m, !sp.NoSubjectType)
+			ins = append(ins, in)
 		}
 	}
 	return ins
